@@ -56,3 +56,5 @@ add('C14','model_checking','exhaustive enumeration of message kind x signer rela
  'Every unauthorized combination must return a non-zero code and leave the app hash identical to a replica that executed an empty block instead.',_chain_note+' Authorization reference written from the docs.')
 add('C15','model_checking','exhaustive enumeration of message x declared-fee variant x horizon, differential replicas of the real app',
  'Exact fee accounting against a reference replica for succeeding and failing messages, malformed fee coin lists, payers with exactly the fee, and after the next block.',_chain_note)
+add('C16','model_checking','exhaustive wire-level re-encoding generator validated by the real decoder + differential replicas of the real app',
+ 'Every generated byte string that the real decoder maps to the same signed content (and the identical bytes) is resubmitted in the same / next / later block; the replica must end with the same app hash as one that never received the copy.',_chain_note+' Re-encodings are those of the generator alphabet (DESIGN §4 C16), current feature set.')
